@@ -212,6 +212,19 @@ def oracle(ctx):
         e2e.write_tree(base, files)
         out = os.path.join(base, 'sand', 'out')
         os.makedirs(os.path.dirname(out))
+        # the state of the output directory is part of the input: in a third of the runs the places of the links to be made are
+        # already taken by links of an earlier generation — dangling ones (their service is gone), one pointing at itself, live
+        # ones pointing elsewhere inside the output directory; "creates, replaces" means each of them is replaced
+        stale_kind = [None, None, 'dangling', 'loop', 'live'][sum(map(ord, svc + inst)) % 5]
+        if stale_kind:
+            os.makedirs(out)
+            with open(os.path.join(out, 'older.service'), 'w') as f:
+                f.write('[Service]\n')
+            for l in sorted(creatable(svc, list(spec_links(svc, inst)))):
+                p = os.path.join(out, l)
+                os.makedirs(os.path.dirname(p), exist_ok=True)
+                if not os.path.lexists(p):
+                    os.symlink({'dangling': '../' * l.count('/') + 'gone.service', 'loop': os.path.basename(l), 'live': '../' * l.count('/') + 'older.service'}[stale_kind], p)
         before = e2e.snapshot(base)
         rc, so, se = e2e.run_binary(['--no-kmsg-log', out], os.path.join(base, 'src'))
         after = e2e.snapshot(base)
